@@ -14,18 +14,39 @@ import (
 )
 
 type FuncResult struct {
-	Name    string
-	Fn      *ssa.Function
-	Con     *Contract
-	VC      *VC
-	Obls    []*Obl
-	Rounds  int
-	Millis  int64
-	Dropped []string // auto invariant candidates dropped
+	Name             string
+	Fn               *ssa.Function
+	Con              *Contract
+	VC               *VC
+	Obls             []*Obl
+	Rounds           int
+	Millis           int64
+	Dropped          []string // auto invariant candidates dropped
+	droppedUndecided int      // ... of which given up without a refutation (unknown / timeout)
 }
 
 // verifyFunc runs VC generation + Houdini pruning of automatic invariant candidates + solving.
 func verifyFunc(eng *Engine, fn *ssa.Function, con *Contract, opts SolveOpts) *FuncResult {
+	r := verifyFuncOnce(eng, fn, con, opts, 1)
+	if r.droppedUndecided > 0 {
+		undecided := false
+		for _, o := range r.Obls {
+			if !o.WantSat && !o.discharged() && o.Status != "sat" && o.Status != "disagree" {
+				undecided = true
+			}
+		}
+		if undecided {
+			// some automatic invariant candidate was given up without being refuted and a proof is now missing: the
+			// outcome may depend on machine load, so the whole function is verified once more with four times the budgets
+			r2 := verifyFuncOnce(eng, fn, con, opts, 4)
+			r2.Millis += r.Millis
+			return r2
+		}
+	}
+	return r
+}
+
+func verifyFuncOnce(eng *Engine, fn *ssa.Function, con *Contract, opts SolveOpts, scale int) *FuncResult {
 	t0 := time.Now()
 	res := &FuncResult{Name: shortFuncName(fn), Fn: fn, Con: con}
 	disabled := map[string]bool{}
@@ -44,8 +65,8 @@ func verifyFunc(eng *Engine, fn *ssa.Function, con *Contract, opts SolveOpts) *F
 		}
 		aopts := opts
 		aopts.AllSolvers = false
-		aopts.SingleMs = 6000
-		aopts.QuickMs = 3000
+		aopts.SingleMs = 6000 * scale
+		aopts.QuickMs = 3000 * scale
 		solveAutoOnly(vc, autos, aopts)
 		dropped := false
 		for _, o := range autos {
@@ -53,6 +74,9 @@ func verifyFunc(eng *Engine, fn *ssa.Function, con *Contract, opts SolveOpts) *F
 				disabled[o.AutoDesc] = true
 				res.Dropped = append(res.Dropped, o.AutoDesc)
 				dropped = true
+				if o.Status != "sat" {
+					res.droppedUndecided++
+				}
 			}
 		}
 		if !dropped {
@@ -101,10 +125,32 @@ func solveAutoOnly(vc *VC, autos []*Obl, opts SolveOpts) {
 	out, _ := runSolver(primary, file, opts.QuickMs, time.Duration(opts.QuickMs*len(autos)+10000)*time.Millisecond)
 	<-solveSem
 	r := parseIncremental(out)
+	var undecided []*Obl
 	for _, o := range autos {
 		o.Status = r[o.Name]
 		if o.Status == "" {
 			o.Status = "unknown"
+		}
+		if o.Status != "unsat" && o.Status != "sat" {
+			undecided = append(undecided, o)
+		}
+	}
+	// a candidate is dropped for good only when it is refuted (sat) or still undecided after a second attempt with a
+	// much larger budget: which candidates survive must not depend on how busy the machine is
+	if len(undecided) > 0 && len(undecided) <= 24 {
+		script := vc.incrementalScript(undecided)
+		file2 := fmt.Sprintf("%s/%s.auto2.smt2", opts.WorkDir, sanitizeFile(vc.funcName()))
+		os.WriteFile(file2, []byte(script), 0o644)
+		defer os.Remove(file2)
+		big := opts.QuickMs * 4
+		solveSem <- struct{}{}
+		out2, _ := runSolver(primary, file2, big, time.Duration(big*len(undecided)+10000)*time.Millisecond)
+		<-solveSem
+		r2 := parseIncremental(out2)
+		for _, o := range undecided {
+			if st := r2[o.Name]; st != "" {
+				o.Status = st
+			}
 		}
 	}
 }
